@@ -14,6 +14,7 @@ import (
 
 type c13Gen struct {
 	r     *rng
+	r2    *rng // draws the representation of the checkers only (c13r.go): the stream of r is what it was
 	stats map[string]int
 	sink  func(line string)
 }
@@ -326,14 +327,18 @@ func (g *c13Gen) checker(pool [][]byte) string {
 		if g.r.chance(15) {
 			names = append(names, hx(g.bytesN(3)))
 		}
-		return "c " + strconv.Itoa(len(names)) + c13Join(names)
+		return g.c13rRender(names)
 	default:
 		n := 1 + g.r.intn(2)
 		var maps []string
 		for i := 0; i < n; i++ {
 			maps = append(maps, hx(pool[g.r.intn(len(pool))])+" "+hx(pool[g.r.intn(len(pool))]))
 		}
-		return "o " + strconv.Itoa(n) + c13Join(maps) + " " + g.checker(pool)
+		inner := g.checker(pool)
+		if g.r2 != nil && g.r2.chance(8) {
+			return "on " + inner // a nil mappings map
+		}
+		return "o " + strconv.Itoa(n) + c13Join(maps) + " " + inner
 	}
 }
 
@@ -769,7 +774,7 @@ func (g *c13Gen) fieldToCases(n int) {
 }
 
 func c13Generate(o *opts, stats map[string]int, sink func(line string)) {
-	g := &c13Gen{r: newRng(o.seed), stats: stats, sink: sink}
+	g := &c13Gen{r: newRng(o.seed), r2: newRng(o.seed ^ 0x63313372), stats: stats, sink: sink}
 	nScen, nHostile, nKeys, nT := 3200, 700, 600, 800
 	if o.thorough() {
 		nScen, nHostile, nKeys, nT = 150000, 30000, 30000, 30000
@@ -777,6 +782,7 @@ func c13Generate(o *opts, stats map[string]int, sink func(line string)) {
 	if o.n > 0 {
 		nScen, nHostile, nKeys, nT = o.n, o.n/4, o.n/4, o.n/4
 	}
+	g.c13rBoundary() // draws nothing from the generators
 	g.boundaryScenarios()
 	g.checkerSubsets()
 	for i := 0; i < nScen; i++ {
